@@ -229,7 +229,13 @@ func (w *vC17sWorld) check(tag string) {
 }
 
 func (w *vC17sWorld) step() {
-	switch rt.Choose(5) {
+	switch rt.Choose(6) {
+	case 5: // a subscribe frame that names no topic at all: nothing is subscribed, nothing may be recorded
+		i := rt.Choose(2)
+		if w.streams[i] != 0 {
+			ctx := streampool.VerifStreamCtx(w.s.pool, w.streams[i])
+			w.s.handleSubscribe(ctx, "peer"+w.accts[i], &pubsubproto.Subscribe{SpaceId: vC17sSpaces[rt.Choose(2)]})
+		}
 	case 0:
 		w.subscribe(rt.Choose(2), vC17sSpaces[rt.Choose(2)], vC17sPatterns[rt.Choose(2)])
 	case 1:
